@@ -176,6 +176,8 @@ namespace vr
         // turn sanitizer output produced since the last call into violations of the current case,
         // attributed to the input named by the current note; cheap enough to call after every input
         inline void poll_reports();
+        // same, but hands the reports to the caller instead of recording them (self-tests that EXPECT a report)
+        inline std::vector<std::string> take_reports();
 
         std::atomic<uint64_t>& counter(const char* name)
         {
@@ -596,6 +598,21 @@ namespace vr
                 violation(r.sig, "{\"sanitizer\":" + jstr(r.text) + ",\"case\":" + jstr(shm->slots[worker].note) + "}");
             san_fatal |= r.fatal_for_worker;
         }
+    }
+
+    inline std::vector<std::string> Ctx::take_reports()
+    {
+        std::vector<std::string> sigs;
+        if (efd < 0)
+            return sigs;
+        struct stat st;
+        if (fstat(efd, &st) != 0 || st.st_size <= epos)
+            return sigs;
+        std::string txt = read_from(efd, epos);
+        epos            = st.st_size;
+        for (auto& r : scan_reports(txt))
+            sigs.push_back(r.sig);
+        return sigs;
     }
 
     // ---- the runner ---------------------------------------------------------------------------
